@@ -740,7 +740,11 @@ impl<E: Effect, R: CommandReceiver<E>, S: EventSender<E>> Worker<E, R, S> {
         process_id: ProcessId,
         keep_indices: Vec<usize>,
     ) -> Result<(), EnvironmentError> {
-        // Build the kept values (preserving the specific LocalNotFound error on a bad index)...
+        // Build the kept values. A kept binding may never have been stored: the REPL commits
+        // every binding of a line, but a step that yields nil short-circuits the steps after it
+        // (`a = 1`, `[x, 5] = v`, `b = 2` on one line never stores `b`), and a top-level tail call
+        // replaces the frame's locals. Such a binding holds nil; failing here would return an
+        // error from `Worker::step` and take down every process of this worker.
         let process = self
             .executor
             .get_process(process_id)
@@ -748,12 +752,7 @@ impl<E: Effect, R: CommandReceiver<E>, S: EventSender<E>> Worker<E, R, S> {
 
         let mut new_locals = Vec::with_capacity(keep_indices.len());
         for &index in &keep_indices {
-            match process.locals.get(index) {
-                Some(value) => new_locals.push(value.clone()),
-                None => {
-                    return Err(EnvironmentError::LocalNotFound { process_id, index });
-                }
-            }
+            new_locals.push(process.locals.get(index).cloned().unwrap_or_else(Value::nil));
         }
 
         // ...then swap them in via the executor so the dropped bindings are released.
